@@ -1,7 +1,9 @@
-(* C14 on the wide grammar (Model/UrlU.v: bytes >= 0x80 and percent-escapes in host, path, query, fragment;
-   Model/Fold.v: EqualFold with Unicode simple folding): IRI.Equals (Model/IriEqU.iri_equ) is the kernel of the
-   normal form nf_u on iri_dom_u - IRIs that are valid UTF-8, parse to a URL with scheme and host, and whose query
-   string is in one letter case apart from the hex digits of its escapes. *)
+(* C14 on the wide grammar (Model/UrlU.v: net/url on all byte strings - bytes >= 0x80 and percent-escapes in host,
+   path, query, fragment, userinfo, IP literals; Model/Fold.v: iri.go equalFold, Unicode simple folding with an
+   invalid byte equal to itself only): IRI.Equals (Model/IriEqU.iri_equ) is the kernel of the normal form nf_u on
+   iri_dom_u - ALL byte strings that parse to a URL with scheme and host and whose query string is in one letter case
+   apart from the hex digits of its escapes.  Userinfo is not in the normal form.  The pinned comparison
+   (strings.EqualFold) identified any two invalid bytes and was not transitive outside valid UTF-8. *)
 From AP.Model Require Import Prelude Bytes Url IriEq IriNf Vocab Pred CollIri Utf8 FoldTab Fold UrlU IriEqU.
 From AP.Proofs Require Import NlvP LowerP IriEqP SortP IriGenP IriNfP IriXP Utf8P FoldP DecodeUP CleanUP UrlUP QueryUP IriGenUP.
 From Coq Require Import Sorting.Permutation.
@@ -24,22 +26,22 @@ Proof. apply (eqb_sym_gu url_classify_u query_pairs_u). Qed.
 Section OneCaseU.
   (* a class of query strings on which EqualFold-equal strings decode to the same pairs *)
   Variable qok : bytes -> bool.
-  Hypothesis qok_pairs : forall q q', qok q = true -> qok q' = true -> ucanon q = ucanon q' -> query_pairs_u q = query_pairs_u q'.
+  Hypothesis qok_pairs : forall q q', qok q = true -> qok q' = true -> scanon q = scanon q' -> query_pairs_u q = query_pairs_u q'.
 
   Notation dom := (iri_dom_u_with qok).
 
   Lemma dom_u_valid a : dom a = true -> exists u, url_classify_u a = UValid u.
-  Proof. unfold iri_dom_u_with. rewrite andb_true_iff. intros [_ H]. destruct (url_classify_u a); try discriminate. eauto. Qed.
+  Proof. unfold iri_dom_u_with. intros H. destruct (url_classify_u a); try discriminate. eauto. Qed.
 
-  Lemma dom_u_parts a u : dom a = true -> url_classify_u a = UValid u -> utf8_valid a = true /\ qok (u_query u) = true.
-  Proof. unfold iri_dom_u_with. rewrite andb_true_iff. intros [V H] E. rewrite E in H. auto. Qed.
+  Lemma dom_u_parts a u : dom a = true -> url_classify_u a = UValid u -> qok (u_query u) = true.
+  Proof. unfold iri_dom_u_with. intros H E. rewrite E in H. exact H. Qed.
 
   Lemma fast_dom_u a b cs u w :
     dom a = true -> dom b = true -> url_classify_u a = UValid u -> url_classify_u b = UValid w ->
-    ufold_eqb (strip_for cs a) (strip_for cs b) = true -> url_same_u query_pairs_u cs u w.
+    sfold_eqb (strip_for cs a) (strip_for cs b) = true -> url_same_u query_pairs_u cs u w.
   Proof.
-    intros Da Db Ha Hb Hf. destruct (dom_u_parts a u Da Ha) as [Va Qa]. destruct (dom_u_parts b w Db Hb) as [Vb Qb].
-    destruct (fast_u a b cs u w Va Vb Ha Hb Hf) as [Hs [Hh [Hp Hq]]].
+    intros Da Db Ha Hb Hf. pose proof (dom_u_parts a u Da Ha) as Qa. pose proof (dom_u_parts b w Db Hb) as Qb.
+    destruct (fast_u a b cs u w Ha Hb Hf) as [Hs [Hh [Hp Hq]]].
     split; [exact Hs|]. split; [exact Hh|]. split; [exact Hp|]. rewrite (qok_pairs _ _ Qa Qb Hq). apply Permutation_refl.
   Qed.
 
@@ -97,29 +99,62 @@ Lemma iri_equ_differ a b cs :
   iri_dom_u a = true -> iri_dom_u b = true -> nf_u_eqb (nf_u false a) (nf_u false b) = false -> iri_equ a b cs = false.
 Proof. apply (iri_equ_differ_with q_lower_class class_pairs). Qed.
 
-(* what an answer "equal" implies for any two valid-UTF-8 IRIs with scheme and host, whatever their queries *)
+(* what an answer "equal" implies for ANY two IRIs with scheme and host, whatever their queries *)
 Lemma iri_equ_true_parts a b cs u w :
-  utf8_valid a = true -> utf8_valid b = true -> url_classify_u a = UValid u -> url_classify_u b = UValid w ->
+  url_classify_u a = UValid u -> url_classify_u b = UValid w ->
   iri_equ a b cs = true ->
-  (cs = true -> ucanon (u_scheme u) = ucanon (u_scheme w)) /\
-  ucanon (u_host u) = ucanon (u_host w) /\
-  ucanon (clean_url_path path_clean (u_path u)) = ucanon (clean_url_path path_clean (u_path w)).
+  (cs = true -> scanon (u_scheme u) = scanon (u_scheme w)) /\
+  scanon (u_host u) = scanon (u_host w) /\
+  scanon (clean_url_path path_clean (u_path u)) = scanon (clean_url_path path_clean (u_path w)).
 Proof.
-  intros Va Vb Ha Hb H. rewrite iri_equ_is_gen in H. apply (eqb_valid_gu url_classify_u query_pairs_u a b cs u w Ha Hb) in H.
+  intros Ha Hb H. rewrite iri_equ_is_gen in H. apply (eqb_valid_gu url_classify_u query_pairs_u a b cs u w Ha Hb) in H.
   destruct H as [H|H].
-  - destruct (fast_u a b cs u w Va Vb Ha Hb H) as [Hs [Hh [Hp _]]]. auto.
+  - destruct (fast_u a b cs u w Ha Hb H) as [Hs [Hh [Hp _]]]. auto.
   - destruct H as [Hs [Hh [Hp _]]]. auto.
 Qed.
 
-(* ---- witnesses: why the domain asks for valid UTF-8 and for one letter case ---- *)
-(* an invalid IRI: the raw lead byte E2 is completed by escaped continuation bytes only after decoding *)
-Lemma invalid_utf8_not_transitive :
+(* ---- userinfo is not compared: two IRIs that parse to the same scheme, host, path, query are equal ---- *)
+Lemma iri_equ_same_url a b cs u : url_classify_u a = UValid u -> url_classify_u b = UValid u -> iri_equ a b cs = true.
+Proof.
+  intros Ha Hb. rewrite iri_equ_is_gen. apply (eqb_valid_gu url_classify_u query_pairs_u a b cs u u Ha Hb). right.
+  exact (proj1 (url_same_u_equiv query_pairs_u cs) u).
+Qed.
+
+(* every IRI with scheme and host is equal to itself with the userinfo taken out, for both flags *)
+Lemma iri_equ_drop_userinfo s u : url_classify_u s = UValid u ->
+  exists sch up rest fo, s = (sch ++ B "://" ++ up ++ rest) ++ tail_of hash fo /\ uprefix up /\
+    url_classify_u ((sch ++ B "://" ++ rest) ++ tail_of hash fo) = UValid u /\
+    forall cs, iri_equ s ((sch ++ B "://" ++ rest) ++ tail_of hash fo) cs = true.
+Proof.
+  intros H. destruct (classify_u_drop_userinfo s u H) as [sch [up [rest [fo [E [U C]]]]]].
+  exists sch, up, rest, fo. split; [exact E|]. split; [exact U|]. split; [exact C|]. intros cs.
+  apply (iri_equ_same_url _ _ cs u); [exact H|exact C].
+Qed.
+
+(* ---- witnesses ---- *)
+(* the pinned comparison (strings.EqualFold) on IRIs that are not valid UTF-8: the raw lead byte E2 is completed by
+   escaped continuation bytes only after decoding; the repaired comparison tells a and b apart *)
+Lemma invalid_utf8_not_transitive_pinned :
   exists a b c, utf8_valid a = false /\ utf8_valid b = true /\ utf8_valid c = false /\
-    iri_equ c a false = true /\ iri_equ a b false = true /\ iri_equ c b false = false.
+    iri_equ_pinned c a false = true /\ iri_equ_pinned a b false = true /\ iri_equ_pinned c b false = false /\
+    iri_dom_u a = true /\ iri_dom_u b = true /\ iri_dom_u c = true /\
+    iri_equ c a false = true /\ iri_equ a b false = false /\ iri_equ c b false = false.
 Proof.
   exists (hx "687474703a2f2f682fe2253834256161"), (hx "687474703a2f2f682fefbfbd253834254141"), (hx "687474703a2f2f682f2e2fe2253834256161").
   repeat split; vm_compute; reflexivity.
 Qed.
+
+(* the pinned comparison: distinct invalid bytes were equal (EqualFold decodes every invalid byte to U+FFFD), also
+   against U+FFFD itself; the repaired one tells them apart and still ignores letter case next to them *)
+Lemma invalid_bytes_equal_pinned :
+  iri_equ_pinned (B "http://h/%ff") (B "http://h/%fe") true = true /\
+  iri_equ_pinned (B "http://h/%ff") (hx "687474703a2f2f682fefbfbd") true = true /\
+  iri_dom_u (B "http://h/%ff") = true /\ iri_dom_u (B "http://h/%fe") = true /\
+  iri_equ (B "http://h/%ff") (B "http://h/%fe") true = false /\
+  iri_equ (B "http://h/%ff") (hx "687474703a2f2f682fefbfbd") true = false /\
+  nf_u true (B "http://h/%ff") <> nf_u true (B "http://h/%fe") /\
+  iri_equ (B "http://h/A%ff") (B "http://h/./a%FF") true = true.
+Proof. repeat split; try (vm_compute; reflexivity). vm_compute. discriminate. Qed.
 
 (* the letter case of a decoded query value is NOT what matters: %4A / %4a are the same value "J" *)
 Lemma query_hex_case_irrelevant :
@@ -135,9 +170,3 @@ Lemma mixed_case_not_transitive_u :
 Proof.
   exists (B "http://h/?X=%4a"), (B "http://h/?x=%4a"), (B "http://h/./?x=%4A"). repeat split; vm_compute; reflexivity.
 Qed.
-
-(* distinct invalid bytes are equal: EqualFold decodes every invalid byte to U+FFFD *)
-Lemma invalid_bytes_equal :
-  iri_equ (B "http://h/%ff") (B "http://h/%fe") true = true /\ iri_dom_u (B "http://h/%ff") = true /\
-  nf_u true (B "http://h/%ff") = nf_u true (B "http://h/%fe").
-Proof. repeat split; vm_compute; reflexivity. Qed.
